@@ -92,6 +92,7 @@ M = [
     ("C18-mirror", "C18", "cnvlib/vary.py", "        return 0.5 + shift\n    return 0.5 - shift", "        return 0.5 - shift\n    return 0.5 + shift"),
     ("C18-ad0", "C18", "skgenome/tabio/vcfio.py", 'alt_count = sample["AD"][1]', 'alt_count = sample["AD"][0]'),
     ("C18-min-depth-gt", "C18", "skgenome/tabio/vcfio.py", "idx_depth = table[dkey] >= min_depth", "idx_depth = table[dkey] > min_depth"),
+    ("C18-baf-fresh-index", "C18", "cnvlib/vary.py", "        return ranges.as_series(np.asarray(bafs, dtype=float))\n", "        return pd.Series(np.asarray(bafs, dtype=float))\n"),
     # ---- C19
     ("C19-biweight-c", "C19", "cnvlib/descriptives.py", "def biweight_location(a, initial=None, c=6.0, epsilon=1e-3, max_iter=5):", "def biweight_location(a, initial=None, c=9.0, epsilon=1e-3, max_iter=5):"),
     ("C19-iqr", "C19", "cnvlib/descriptives.py", "return np.percentile(a, 75) - np.percentile(a, 25)", "return np.percentile(a, 80) - np.percentile(a, 20)"),
